@@ -40,6 +40,8 @@ enum Act {
     Run,
     ClearProbe,
     NewProbe,
+    /// NEW executed by a stored line (typed at the given number), then the probes
+    NewInProgramProbe(&'static str),
 }
 
 struct Model {
@@ -48,7 +50,9 @@ struct Model {
     only_prog: Option<usize>,
 }
 
-const PROBES: [&str; 9] = [
+const PROBES: [&str; 10] = [
+    // CONT first: a failing direct statement drops a pending continuation
+    "CONT",
     "PRINT A;A%;A#;A$;B(2);S;X;I;W;Q(1);D;K",
     "DIM A(3):A(3)=1:DIM B(9),Q(9)",
     "RETURN",
@@ -89,6 +93,8 @@ fn model(depth: usize, only_prog: Option<usize>) -> Model {
     acts.push(("RUN".into(), Act::Run));
     acts.push(("CLEAR+probes".into(), Act::ClearProbe));
     acts.push(("NEW+probes".into(), Act::NewProbe));
+    acts.push(("15 NEW+RUN+probes".into(), Act::NewInProgramProbe("15 NEW")));
+    acts.push(("25 PRINT \"n\";:NEW+RUN+probes".into(), Act::NewInProgramProbe("25 PRINT \"n\";:NEW")));
     Model { acts, depth, only_prog }
 }
 
@@ -123,7 +129,7 @@ impl SpaceModel for Model {
                 // a panic is C03's business unless it happens on a transition this check judges
                 let mut viols = vec![];
                 let last = hist.len().saturating_sub(1);
-                if at.get() == last && matches!(self.acts[hist[last]].1, Act::Run | Act::ClearProbe | Act::NewProbe) {
+                if at.get() == last && matches!(self.acts[hist[last]].1, Act::Run | Act::ClearProbe | Act::NewProbe | Act::NewInProgramProbe(_)) {
                     viols.push((format!("{}/panic", self.acts[hist[last]].0), p));
                 }
                 Some(Step { digest: hash64(&("panic", hist)), viols, nontrivial: None, terminal: true })
@@ -210,10 +216,20 @@ impl Model {
                         }
                     }
                 }
-                Act::ClearProbe | Act::NewProbe => {
-                    let is_new = *act == Act::NewProbe;
+                Act::ClearProbe | Act::NewProbe | Act::NewInProgramProbe(_) => {
+                    let is_new = *act != Act::ClearProbe;
                     let now = s.listing_text();
-                    s.enter(if is_new { "NEW" } else { "CLEAR" });
+                    if let Act::NewInProgramProbe(line) = act {
+                        s.enter(line);
+                        s.replies = replies().into_iter().collect();
+                        s.enter("RUN");
+                        if !s.listing_text().is_empty() {
+                            // the run ended (error, STOP, END) before reaching the NEW line: nothing to judge
+                            return Some(Step { digest: hash64(&("new-not-reached", hist)), viols, nontrivial, terminal: true });
+                        }
+                    } else {
+                        s.enter(if is_new { "NEW" } else { "CLEAR" });
+                    }
                     s.take();
                     let got = probe_transcript(&mut s);
                     if last {
@@ -253,10 +269,10 @@ impl Check for C12 {
     fn meta(&self, tier: Tier) -> Meta {
         Meta {
             bound: format!(
-                "12 programs (variables, arrays, DEFtype, DEF FN, DATA/RESTORE, FOR/GOSUB/WHILE, INPUT, STOP inside loops and subroutines, runtime errors) x all histories of up to {} actions from 26 (18 direct lines incl. assignments, DIM, DEFINT/DEFSTR, READ, RESTORE, FOR, GOSUB into STOP, CLEAR, CONT, one that fails to compile and one that fails to link; two edits of the listing; RUN interrupted after 3, 9, 20 instructions; RUN; CLEAR+probes; NEW+probes), deduplicated by the full state digest",
+                "12 programs (variables, arrays, DEFtype, DEF FN, DATA/RESTORE, FOR/GOSUB/WHILE, INPUT, STOP inside loops and subroutines, runtime errors) x all histories of up to {} actions from 28 (18 direct lines incl. assignments, DIM, DEFINT/DEFSTR, READ, RESTORE, FOR, GOSUB into STOP, CLEAR, CONT, one that fails to compile and one that fails to link; two edits of the listing; RUN interrupted after 3, 9, 20 instructions; RUN; CLEAR+probes; NEW+probes; NEW executed by a stored line at two places + probes), deduplicated by the full state digest",
                 tier.pick(4, 6)
             ),
-            rule: "a case is one transition; judged transitions are RUN (compared with RUN in a fresh interpreter holding the current listing) and CLEAR / NEW followed by 9 probe lines (compared with the probes in a fresh interpreter); distinct_nontrivial = distinct (program, fresh transcript)".into(),
+            rule: "a case is one transition; judged transitions are RUN (compared with RUN in a fresh interpreter holding the current listing) and CLEAR / NEW followed by 10 probe lines (compared with the probes in a fresh interpreter); distinct_nontrivial = distinct (program, fresh transcript)".into(),
             states_note: "states = distinct full-state digests; transitions = actions executed".into(),
             assumptions: vec![
                 "TRON is not among the items the property enumerates (it persists across RUN by design) and is only used inside one program that switches it off again".into(),
